@@ -144,7 +144,7 @@ fn gen_case(sub: &[u8], prefix: &str) -> Case {
 }
 
 fn reval_is_operator_name(n: &str) -> bool {
-    matches!(n, "add" | "sub" | "mul" | "bit_or" | "lt" | "eq")
+    matches!(n, "add" | "sub" | "mul" | "bit_or" | "lt" | "eq" | "get" | "neg")
 }
 
 /// one job for several programs: each program is its own compile step, followed by a marker
